@@ -991,13 +991,13 @@ func (d *duration) Apply(key string, value interface{}, ctx *rdf.ParsingContext)
 					).Block(
 						jen.Id("isNeg").Op(":=").False(),
 						jen.If(
-							jen.Id("s").Index(jen.Lit(0)).Op("==").LitRune('-'),
+							jen.Qual("strings", "HasPrefix").Call(jen.Id("s"), jen.Lit("-")),
 						).Block(
 							jen.Id("isNeg").Op("=").True(),
 							jen.Id("s").Op("=").Id("s").Index(jen.Lit(1), jen.Empty()),
 						),
 						jen.If(
-							jen.Id("s").Index(jen.Lit(0)).Op("!=").LitRune('P'),
+							jen.Op("!").Qual("strings", "HasPrefix").Call(jen.Id("s"), jen.Lit("P")),
 						).Block(
 							jen.Return(
 								jen.Lit(0),
